@@ -23,11 +23,17 @@ from props.consumer_lib import (EV_START, EV_STOP, EV_SHUTDOWN, EV_COMMIT, EV_RE
 
 
 # ---------------------------------------------------------------- the log
-class Unit(object):
-    __slots__ = ("kind", "magic", "entries", "data")
+def gz_members(parts):
+    """a gzip stream of several members (RFC 1952 allows it; java.util.zip / kafka brokers produce them when batches are
+    concatenated): every member is a complete gzip file, the decoder must read them all"""
+    return b"".join(CL.gz(p) for p in parts)
 
-    def __init__(self, kind, magic, entries):
-        self.kind, self.magic, self.entries = kind, magic, entries
+
+class Unit(object):
+    __slots__ = ("kind", "magic", "entries", "data", "members")
+
+    def __init__(self, kind, magic, entries, members=1):
+        self.kind, self.magic, self.entries, self.members = kind, magic, entries, members
         vals = dict((o, v) for (o, k, v) in entries)
         keys = dict((o, k) for (o, k, v) in entries)
         offs = [o for (o, k, v) in entries]
@@ -36,10 +42,13 @@ class Unit(object):
             self.data = CL.enc_entry(o, CL.enc_message(magic, 0, k, v, ts=1000 + o))
         else:
             if magic == 0:
-                inner = b"".join(CL.enc_entry(o, CL.enc_message(0, 0, keys[o], vals[o])) for o in offs)
+                inner = [CL.enc_entry(o, CL.enc_message(0, 0, keys[o], vals[o])) for o in offs]
             else:
-                inner = b"".join(CL.enc_entry(o - offs[0], CL.enc_message(1, 0, keys[o], vals[o], ts=1000 + o)) for o in offs)
-            self.data = CL.enc_entry(offs[-1], CL.enc_message(magic, 1, None, CL.gz(inner), ts=1000 + offs[-1]))
+                inner = [CL.enc_entry(o - offs[0], CL.enc_message(1, 0, keys[o], vals[o], ts=1000 + o)) for o in offs]
+            k = max(1, min(members, len(inner)))
+            cut = [len(inner) * j // k for j in range(k + 1)]
+            parts = [b"".join(inner[cut[j]:cut[j + 1]]) for j in range(k)]
+            self.data = CL.enc_entry(offs[-1], CL.enc_message(magic, 1, None, gz_members(parts), ts=1000 + offs[-1]))
 
 
 class PartitionLog(object):
@@ -76,7 +85,7 @@ class PartitionLog(object):
                     ents.append((self.next, None if rnd.random() < 0.7 else self.key(self.next), self.value(self.next)))
                     self.next += 1
                 # magic-1 wrappers express gaps by relative offsets; magic-0 wrappers keep absolute ones
-                self.units.append(Unit("gz", rnd.choice([0, 1]), ents))
+                self.units.append(Unit("gz", rnd.choice([0, 1]), ents, members=rnd.choice([1, 1, 2, 3])))
                 n -= k
             else:
                 self.next += rnd.choice([0, 0, 0, 0, 1, 2, 9])
@@ -135,6 +144,37 @@ class OffsetStore(object):
     def __init__(self, committed=None):
         self.committed = committed
         self.acked = []
+
+
+# ---------------------------------------------------------------- processor results beyond consumer_lib's
+class LDriver(CL.Driver):
+    """plan result 3: the processor returns a Deferred that HAS FIRED but whose callback chain is paused on a pending one
+    (succeed(x).addCallback(lambda _: pending)): to the consumer a pending result (model code 2; EV_PROC_FIRE fires the
+    inner one).  plan result 4: it returns a Deferred that already failed (model code 1, same as raising)."""
+
+    def processor(self, consumer, msgs):
+        from twisted.internet.defer import Deferred, fail, succeed
+        from twisted.python.failure import Failure
+        special = self.plan[0][1] if (self.plan and self.plan[0][1] in (3, 4)) else None
+        if special is not None:
+            self.plan[0] = (self.plan[0][0], 0)
+        r = CL.Driver.processor(self, consumer, msgs)
+        if special == 3:
+            inner = Deferred(lambda _d: self.out(CL.OUT_CANCEL_PROC))
+            self.procs.append(inner)
+            d = succeed(None)
+            d.addCallback(lambda _: inner)
+            return d
+        if special == 4:
+            return fail(Failure(CL.ProcessorBoom("scripted")))
+        return r
+
+
+def model_event(ev):
+    """the event as Model/Consumer.v knows it (processor results 3 / 4 are its 2 / 1)"""
+    if ev[0] == EV_PLAN and ev[2] in (3, 4):
+        return (ev[0], ev[1], {3: 2, 4: 1}[ev[2]])
+    return ev
 
 
 # ---------------------------------------------------------------- honest schedule
@@ -235,7 +275,7 @@ def honest_event(env, drv, weights):
         return (t, rnd.choice([OFFSET_EARLIEST, OFFSET_EARLIEST, OFFSET_LATEST, OFFSET_COMMITTED, OFFSET_COMMITTED,
                                env.log.start, pick, pick, nxt, env.log.end, env.log.end + 5]))
     if t == EV_PLAN:
-        return (t, rnd.choice([0] * 14 + [1, 2, 2, 3]), rnd.choice([0, 0, 0, 0, 0, 1, 2, 2, 2]))
+        return (t, rnd.choice([0] * 14 + [1, 2, 2, 3]), rnd.choice([0, 0, 0, 0, 0, 1, 2, 2, 2, 3, 3, 4]))
     if t == EV_PROC_FIRE:
         return (t, rnd.choice([1, 1, 1, 1, 0]))
     return (t,)
@@ -246,7 +286,7 @@ def honest_run(rnd, cfg, log, store, steps, weights=None, fault=0.12, first=None
     run fault-free with a processor that returns at once for up to `drain` steps (for the completeness monitor)."""
     CL.quiet()
     env = Env(rnd, log, store, fault, corrupt)
-    drv = CL.Driver(cfg, **kw)
+    drv = LDriver(cfg, **kw)
     drv.values_seen = []
     drv.escaped = None               # an exception that escaped a stimulus (never expected): recorded, the run ends
     events = []
@@ -254,6 +294,10 @@ def honest_run(rnd, cfg, log, store, steps, weights=None, fault=0.12, first=None
     def deliver(ev):
         if drv.escaped is not None:
             return
+        if ev == "reply":                     # scripted histories: the honest answer to whatever is outstanding
+            if not drv.req_pending():
+                return
+            ev = reply_event(env, drv)
         apply_store(env, drv, ev)
         events.append(ev)
         try:
@@ -461,7 +505,7 @@ class ProcWindow(object):
             self.lp = blk[-1]
             self.done = self.done + blk
             self.st = None
-        elif r == 2:
+        elif r in (2, 3):
             self.st = ("pending", blk)
         else:
             self.st = None
